@@ -3,7 +3,9 @@ TcpConnection classes (C14) without the operating system.  Semantics follow kern
   - connect() towards a black-holed peer stays in progress until the path heals; towards a port nobody listens on it
     fails (ERROR event, SO_ERROR = ECONNREFUSED);
   - an established connection over a black-holed path delivers nothing and reports nothing;
-  - a reset gives both ends an ERROR event; close() gives the peer end-of-file (recv == b'') if the path is up.
+  - a reset gives both ends an ERROR event; close() gives the peer end-of-file (recv == b'') if the path is up;
+  - a half-open connection (a middlebox lost its state): one end gets an error, the other end notices nothing until
+    its own timeout - what it sends vanishes.
 Time is virtual (FakeNet.now); nothing sleeps."""
 import errno, socket as _real
 
@@ -134,7 +136,8 @@ class FakeSocket(object):
             if self.net.listeners.get(self.port) is self:
                 del self.net.listeners[self.port]
         p = self.peer
-        if self.state == 'est' and p is not None and p.state == 'est' and self.net.path_up(self.owner, p.owner):
+        if self.state == 'est' and p is not None and p.state == 'est' and self.net.path_up(self.owner, p.owner) \
+                and not getattr(self, 'silent_close', False):
             p.fin = True
         self.state = 'closed'
 
